@@ -141,6 +141,9 @@ func (b Beta) Survival(x float64) float64 {
 		return 1
 	case x >= 1:
 		return 0
+	case x < 0.5:
+		// 1-x would lose x.
+		return 1 - mathext.RegIncBeta(b.Alpha, b.Beta, x)
 	}
 	return mathext.RegIncBeta(b.Beta, b.Alpha, 1-x)
 }
